@@ -219,6 +219,11 @@ class Engine(CoreMixin, ExprMixin, CallMixin, LibMixin, StmtMixin, ReMixin):
 
     def post_env(self, st):
         env = dict(self.params_env)
+        # a parameter the function mutates in place (contract: mutates=[...]) denotes its final value in a
+        # postcondition, old(p) its value at entry
+        for name in self.contract.mutates:
+            if name in st.env:
+                env[name] = st.env[name]
         return env
 
     def check_return(self, o):
@@ -316,14 +321,20 @@ class Engine(CoreMixin, ExprMixin, CallMixin, LibMixin, StmtMixin, ReMixin):
             self.params_env = dict(self.params_env)
             self.params_env["exc"] = SV(Ref(ex.payload.ty.cls), ex.payload.ts)
         names = [n for n in con.raises]
-        known = [n if n != "*" else "BaseException" for n in names]
-        allowed = self.exc_matches(ex, known) if known else smt.FALSE
+
+        def covers(key):
+            """Bool term: the raised exception falls under the raises-key ('Name', '*', or '*!Excluded!...')"""
+            if key == "*":
+                return smt.TRUE
+            if key.startswith("*!"):
+                return smt.And(*[smt.Not(self.exc_matches(ex, [x])) for x in key.split("!")[1:]])
+            return self.exc_matches(ex, [key])
+        allowed = smt.Or(*[covers(n) for n in names]) if names else smt.FALSE
         label = ex.name or "unknown"
         self.oblige(o.st, allowed, "%s#raises.only_declared" % (self.short,), "raises", self.curline,
                     "exception %s escapes; declared: %s" % (label, names))
         for n in names:
-            kn = "BaseException" if n == "*" else n
-            c = self.exc_matches(ex, [kn])
+            c = covers(n)
             if c.s == "false":
                 continue
             s2 = o.st.copy().assume(c)
